@@ -138,8 +138,56 @@ def corpus_layer(ctx):
         ctx.count('corpus')
 
 
+def show(conn, q):
+    try:
+        cur = conn.execute(q)
+        return proto.show_result(cur.description, cur.fetchall(), proto.Content())
+    except Exception as exc:  # noqa: BLE001
+        return 'EXC:%s:%s' % (type(exc).__name__, exc)
+
+
+def ledger_layer(ctx):
+    """subqueries over the ledger tables: structured datatypes pass through FROM (q); an IN subquery with its own
+    FROM clause (filter, OPEN / CLOSE / CLEAR) leaves the enclosing statement's table alone"""
+    import ledgers
+    rng = ctx.rng
+    text, entries, errors, options = ledgers.gen_ledger(rng, ntxn=rng.range(8, 14))
+    conn = ledgers.connect(entries, errors, options)
+    dates = sorted({r[0] for r in conn.execute('SELECT date FROM #postings').fetchall()})
+    mid, late = dates[len(dates) // 3].isoformat(), dates[(2 * len(dates)) // 3].isoformat()
+    pairs = [
+        ('SELECT sum(p) AS s, count(*) AS n FROM (SELECT position AS p, account AS a FROM #postings)',
+         'SELECT sum(position) AS s, count(*) AS n FROM #postings'),
+        ('SELECT a, sum(p) AS s, units(sum(p)) AS u FROM (SELECT position AS p, account AS a FROM #postings) GROUP BY a ORDER BY a',
+         'SELECT account AS a, sum(position) AS s, units(sum(position)) AS u FROM #postings GROUP BY account ORDER BY account'),
+        ('SELECT number(u) AS n, currency(u) AS c FROM (SELECT units(position) AS u FROM #postings)',
+         'SELECT number(units(position)) AS n, currency(units(position)) AS c FROM #postings'),
+        ('SELECT * FROM (SELECT position, units(position) AS u, cost(position) AS c, weight, balance FROM #postings)',
+         'SELECT position, units(position) AS u, cost(position) AS c, weight, balance FROM #postings'),
+    ]
+    for inner_from in ('OPEN ON %s' % mid, 'CLOSE ON %s' % late, 'OPEN ON %s CLOSE ON %s CLEAR' % (mid, late), 'year >= 2020', 'CLEAR'):
+        inner = 'SELECT account FROM %s' % inner_from
+        accounts = sorted({r[0] for r in conn.execute(inner).fetchall()})
+        lit = '(' + ', '.join("'%s'" % a for a in accounts) + (',' if len(accounts) == 1 else '') + ')' if accounts else None
+        for outer in ('SELECT date, flag, account, position WHERE account %s %s', 'SELECT account, account %s %s AS m, position'):
+            for op in ('IN', 'NOT IN'):
+                nested = outer % (op, '(' + inner + ')')
+                if lit is None:
+                    continue
+                pairs.append((nested, outer % (op, lit)))
+    for a, b in pairs:
+        ctx.count('ledger-subquery')
+        ctx.evaluations += 1
+        ra, rb = show(conn, a), show(conn, b)
+        ctx.nontrivial_hashes.add(hash(('ledger', a)))
+        if ra != rb:
+            ctx.record_violation('ledger-subquery-differs-from-materialised', '%s -> %s | %s -> %s' % (a, ra[:300], b, rb[:300]),
+                                 payload={'ledger': text, 'query': a})
+
+
 def run(ctx):
     corpus_layer(ctx)
+    ledger_layer(ctx)
     rng = ctx.rng
     ncases = 30000 if ctx.thorough() else 300
     t = u = None
